@@ -100,7 +100,8 @@ if prop == 'C11':
     TEMPLATES = ['let s = { a = V; }; in let inherit (s) a; in { x = a; }', 'let a = V; in { inherit a; x = a; }', 'let s = { a = V; }; in rec { inherit (s) a; x = a; }',
                  'with { a = V; }; { x = a; }', 'with { a = V; }; with { b = 1; }; { x = a; }', 'with { a = 1; }; with { a = V; }; { x = a; }', 'let e = { a = V; }; in with e; { x = a; }',
                  'let s = { a = r; }; r = V; in let inherit (s) a; in { x = a; }', 'let a = V; in let b = a; in { x = b; }', 'let s = { a = V; b = 2; }; in let inherit (s) a b; in { x = a; y = b; }',
-                 '{ pkgs }: let s = { a = V; }; in let inherit (s) a; in { x = a; }', 'let s = { a = V; }; in let inherit (s) a; in mk { x = a; }']
+                 '{ pkgs }: let s = { a = V; }; in let inherit (s) a; in { x = a; }', 'let a = V; in mk { x = a; }', 'let a = V; in assert c; { x = a; }', '{ pkgs }: let a = V; in { x = a; }']
+    # listed (F-46): a call/assert wrapper between the let and the set under a lambda head, or with an inherited name — overwritten instead of redirected
     for tpl in TEMPLATES:
         for old, new in [('5', '9'), ('"o"', '"n"'), ('[ 1 ]', '{ k = 1; }')]:
             src = tpl.replace('V', old); want = tpl.replace('V', new); count('reference-templates')
